@@ -342,14 +342,17 @@ pub fn reply_frame(id: SeqId, r: &Reply) -> Vec<u8> {
         }),
         CF_PRINT_LINE => {
             if m % 8 == 7 {
-                rc::print_line(m, &long_text(m, 250 + m as usize))
+                // bodies (1 + text) of 251.., exactly 4096, 4097, 8192, 12288, 16384, 40001 and 65535 bytes
+                let n = [250 + m as usize, 4095, 4096, 8191, 12287, 16383, 40000, 65534][(m as usize / 8) % 8];
+                rc::print_line(m, &long_text(m, n))
             } else {
                 rc::print_line(m, format!("line {m}").as_bytes())
             }
         }
         CF_PRINT_BLOCK => {
             if m % 8 == 7 {
-                let lines: Vec<Vec<u8>> = (0..(6 + m as usize % 30)).map(|i| long_text(m.wrapping_add(i as u8), 40)).collect();
+                let (count, width) = [(6 + m as usize % 30, 40), (120, 40), (20, 250), (3, 300)][(m as usize / 8) % 4];
+                let lines: Vec<Vec<u8>> = (0..count).map(|i| long_text(m.wrapping_add(i as u8), width)).collect();
                 rc::print_text_block(m % 4, &lines)
             } else {
                 rc::print_text_block(m % 4, &[format!("block {m}").into_bytes(), b"second line".to_vec()])
